@@ -32,6 +32,11 @@ RULE = ("one case = one (primitive, key size, length class[, AAD class, "
         "vt/refs/kdf.py, themselves audited against OpenSSL in the same "
         "run).  AEAD negative cases enumerate every single-bit flip of "
         "ciphertext, tag, nonce and AAD, every truncation and wrong keys; "
+        "Live monitors: derive_secret wrapped during TLS 1.3 handshakes "
+        "(each call's transcript located among the prefixes of what the "
+        "two ends sent, value recomputed), exporters of full and "
+        "resumed <=1.2 connections against the reference PRF with "
+        "randoms read off the wire.   "
         "each has its untouched positive control.  distinct_nontrivial "
         "counts distinct (primitive, length class, split pattern / mutation "
         "kind) cells in which at least one comparison was made.")
